@@ -1,6 +1,6 @@
 (* C18 - backpressure bounds buffering, loses nothing, and always resumes.
    This file only pins statements. *)
-From Amq Require Import Lib.Base Gen.Consts Model.Wire Model.Frames Model.OutBuf Model.Collector Model.Slots Model.Core Model.Loop Proofs.OutBuf Proofs.Loop Proofs.CoreContent Proofs.CoreInv Proofs.CoreMore.
+From Amq Require Import Lib.Base Gen.Consts Model.Wire Model.Frames Model.OutBuf Model.Collector Model.Slots Model.Core Model.Loop Proofs.OutBuf Proofs.Loop Proofs.CoreContent Proofs.CoreInv Proofs.CoreMore Model.Wake Proofs.Wake.
 
 (* the throttle is a hysteresis: channels stop being polled only above the high-water mark, are polled again only at or below the low-water mark, and nothing changes in between *)
 Theorem C18_throttle_spec : forall (listening : bool) (outlen high low : N), low <= high -> match throttle_of listening outlen high low with | TNone => (listening = true -> outlen <= high) /\ (listening = false -> low < outlen) | TDeregister => listening = true /\ high < outlen | TReregister => listening = false /\ outlen <= low end.
@@ -30,6 +30,42 @@ Proof. exact mailbox_fifo. Qed.
 Theorem C18_trace_conserves : forall (ops : list bop) (st : list N * outbuf * list N), (let '(wire, b, acc) := st in wire ++ ob b = acc) -> (fix ok (st0 : bytes * outbuf * bytes) (ops0 : list bop) {struct ops0} : Prop := match ops0 with | [] => True | o :: ops' => no_write_failure st0 o /\ ok (bstep st0 o) ops' end) st ops -> let '(wire', b', acc') := fold_left bstep ops st in wire' ++ ob b' = acc'.
 Proof. exact trace_conserves. Qed.
 
+(* NO LOST WAKE-UP, for every interleaving of publishers' sends, dropped handles, polls, channel events, socket writes, frames queued by the thread itself, allocations, removals and loop tails (wrun over ANY op list): in every reachable state every channel holding a message has its readiness set, respects the mailbox bound, and - while channels are polled - has a wake-up on the way: queued in the poll, reported and not yet handled, or owed by the loop tail (channels_need_repoll). J is spelled out in Proofs/Wake.v (cok) *)
+Theorem C18_wake_invariant : forall (mx bound high low : N) (ops : list wop), Forall (op_ok mx) ops -> J mx (wrun (winit bound high low) ops).
+Proof. exact wake_invariant. Qed.
+
+(* ... so after the tail of a batch whose events were all handled, while channels are polled, every channel that holds a message is queued in the poll *)
+Theorem C18_tail_leaves_wakeups : forall (mx : N) (w : wstate) (ch : N) (c : chan), J mx w -> w_pending w = [] -> let w' := snd (wtail w) in alookup ch (w_chans w') = Some c -> k_mail c <> [] -> w_listening w' = true -> k_queued c = true /\ k_ready c = true.
+Proof. exact tail_leaves_wakeups. Qed.
+
+(* ... and the very next poll reports it: a publisher blocked on a full mailbox is always served again *)
+Theorem C18_next_poll_reports : forall (mx : N) (w : wstate) (ch : N) (c : chan), J mx w -> w_pending w = [] -> let w' := snd (wtail w) in alookup ch (w_chans w') = Some c -> k_mail c <> [] -> w_listening w' = true -> In ch (fst (wpoll w')).
+Proof. exact next_poll_reports. Qed.
+
+(* while channels are NOT polled there is unsent data (hence, C18_write_interest, a writable interest on the socket, hence another batch as soon as the transport takes data) *)
+Theorem C18_throttled_has_data : forall w : wstate, w_listening (snd (wtail w)) = false -> 0 < w_out (snd (wtail w)).
+Proof. exact throttled_has_data. Qed.
+
+(* ALWAYS RESUMES: the first tail that finds the buffer at or below the low-water mark polls the channels again, clears channels_need_repoll and queues every channel that holds a message (edge-triggered sources are re-armed, also those allocated while throttled) *)
+Theorem C18_resume_rearms : forall (mx : N) (w : wstate) (ch : N) (c : chan), J mx w -> w_listening w = false -> w_out w <= w_low w -> let w' := snd (wtail w) in w_listening w' = true /\ w_need w' = false /\ (alookup ch (w_chans w') = Some c -> k_mail c <> [] -> k_queued c = true).
+Proof. exact resume_rearms. Qed.
+
+(* BOUNDED: a channel event receives nothing while the buffer is above the high-water mark: it leaves the buffer no larger than it found it, or at most one message above the mark *)
+Theorem C18_event_bounded : forall (mx : N) (w : wstate) (ch : N), J mx w -> w_out (snd (wevent w ch)) <= N.max (w_out w) (w_high w + mx).
+Proof. exact event_bounded. Qed.
+
+(* ... for every run: the out-buffer never exceeds high-water mark + one message + what the I/O thread queued itself (replies, heartbeats) *)
+Theorem C18_out_bounded : forall (mx bound high low : N) (ops : list wop), Forall (op_ok mx) ops -> w_out (wrun (winit bound high low) ops) <= high + mx + grown ops.
+Proof. exact out_bounded. Qed.
+
+(* ... and everything publishers were allowed to hand over that the socket has not taken yet (buffer + mailboxes) is bounded in terms of the tuning: high-water mark plus max(1, mem_channel_bound) messages per channel plus one message *)
+Theorem C18_backlog_bounded : forall (mx bound high low : N) (ops : list wop), Forall (op_ok mx) ops -> let w := wrun (winit bound high low) ops in backlog w <= high + mx + grown ops + N.of_nat (length (w_chans w)) * (N.max 1 bound * mx).
+Proof. exact backlog_bounded. Qed.
+
+(* LOSES NOTHING: a channel event hands a prefix of the mailbox to the buffer, whole and in order; the rest stays in the mailbox *)
+Theorem C18_drain_in_order : forall (fuel : nat) (high : N) (c : chan) (out : N), (length (k_mail c) < fuel)%nat -> let '(_, c', out', _) := drain fuel high c out in exists taken : list N, k_mail c = taken ++ k_mail c' /\ out' = out + sum taken.
+Proof. exact drain_in_order. Qed.
+
 (* non-vacuity: high 1000, low 0: 1001 bytes buffered throttles, 1 byte left keeps it, 0 resumes *)
 Example C18_example :
   let l0 := loop_init in
@@ -39,6 +75,19 @@ Example C18_example :
   (l_listening l1, l_listening l2, l_listening l3) = (false, false, true).
 Proof. vm_compute. reflexivity. Qed.
 
+(* non-vacuity of the wake-up theorems: bound 3, high 10, low 0; channel 1 holds three
+   messages of 8 bytes; its event takes two (the buffer was not above the mark when it looked),
+   stops at the mark with one message left and owes a wake-up; the socket takes everything in
+   that same batch, so the tail re-arms instead of throttling, and the next poll reports
+   channel 1 again *)
+Example C18_example_wake :
+  let w := wrun (winit 3 10 0) [WAlloc 1; WSend 1 8; WSend 1 8; WSend 1 8; WPoll; WEv 1] in
+  (w_out w, w_need w, map (fun e => (k_mail (snd e), k_queued (snd e))) (w_chans w))
+    = (16, true, [([8], false)]) /\
+  let w2 := wrun w [WWrote 16] in
+  fst (wtail w2) = ARearm /\ fst (wpoll (snd (wtail w2))) = [1].
+Proof. vm_compute. repeat split. Qed.
+
 Check C18_throttle_spec : forall (listening : bool) (outlen high low : N), low <= high -> match throttle_of listening outlen high low with | TNone => (listening = true -> outlen <= high) /\ (listening = false -> low < outlen) | TDeregister => listening = true /\ high < outlen | TReregister => listening = false /\ outlen <= low end.
 Check C18_throttles_above_high : forall (l : loop) (had : bool) (outlen high low : N), l_listening l = true -> high < outlen -> l_listening (fst (loop_tail l had outlen high low)) = false.
 Check C18_stays_throttled : forall (l : loop) (had : bool) (outlen high low : N), l_listening l = false -> low < outlen -> l_listening (fst (loop_tail l had outlen high low)) = false.
@@ -46,6 +95,15 @@ Check C18_resumes_at_low : forall (l : loop) (had : bool) (outlen high low : N),
 Check C18_write_interest : forall (l : loop) (outlen outlen' high low : N), loop_inv l outlen -> let '(l', _) := loop_tail l (negb (outlen =? 0)) outlen' high low in loop_inv l' outlen'.
 Check C18_mailbox_fifo : forall (n : N) (bufs : list bytes) (fuel : nat) (c : core) (s : slot), n <> 0 -> alookup n (c_slots c) = Some s -> s_mail s = map MsgSend bufs -> s_mail_tx s = true -> ob_sealed (c_out c) = false -> (length bufs < fuel)%nat -> exists c' : core, chan_readable fuel n c = (OOk, c') /\ ob (c_out c') = ob (c_out c) ++ concat bufs /\ ob_sealed (c_out c') = false /\ c_phase c' = c_phase c /\ c_qs c' = c_qs c /\ (forall k : N, k <> n -> alookup k (c_slots c') = alookup k (c_slots c)) /\ (exists s' : slot, alookup n (c_slots c') = Some s' /\ s_mail s' = []).
 Check C18_trace_conserves : forall (ops : list bop) (st : list N * outbuf * list N), (let '(wire, b, acc) := st in wire ++ ob b = acc) -> (fix ok (st0 : bytes * outbuf * bytes) (ops0 : list bop) {struct ops0} : Prop := match ops0 with | [] => True | o :: ops' => no_write_failure st0 o /\ ok (bstep st0 o) ops' end) st ops -> let '(wire', b', acc') := fold_left bstep ops st in wire' ++ ob b' = acc'.
+Check C18_wake_invariant : forall (mx bound high low : N) (ops : list wop), Forall (op_ok mx) ops -> J mx (wrun (winit bound high low) ops).
+Check C18_tail_leaves_wakeups : forall (mx : N) (w : wstate) (ch : N) (c : chan), J mx w -> w_pending w = [] -> let w' := snd (wtail w) in alookup ch (w_chans w') = Some c -> k_mail c <> [] -> w_listening w' = true -> k_queued c = true /\ k_ready c = true.
+Check C18_next_poll_reports : forall (mx : N) (w : wstate) (ch : N) (c : chan), J mx w -> w_pending w = [] -> let w' := snd (wtail w) in alookup ch (w_chans w') = Some c -> k_mail c <> [] -> w_listening w' = true -> In ch (fst (wpoll w')).
+Check C18_throttled_has_data : forall w : wstate, w_listening (snd (wtail w)) = false -> 0 < w_out (snd (wtail w)).
+Check C18_resume_rearms : forall (mx : N) (w : wstate) (ch : N) (c : chan), J mx w -> w_listening w = false -> w_out w <= w_low w -> let w' := snd (wtail w) in w_listening w' = true /\ w_need w' = false /\ (alookup ch (w_chans w') = Some c -> k_mail c <> [] -> k_queued c = true).
+Check C18_event_bounded : forall (mx : N) (w : wstate) (ch : N), J mx w -> w_out (snd (wevent w ch)) <= N.max (w_out w) (w_high w + mx).
+Check C18_out_bounded : forall (mx bound high low : N) (ops : list wop), Forall (op_ok mx) ops -> w_out (wrun (winit bound high low) ops) <= high + mx + grown ops.
+Check C18_backlog_bounded : forall (mx bound high low : N) (ops : list wop), Forall (op_ok mx) ops -> let w := wrun (winit bound high low) ops in backlog w <= high + mx + grown ops + N.of_nat (length (w_chans w)) * (N.max 1 bound * mx).
+Check C18_drain_in_order : forall (fuel : nat) (high : N) (c : chan) (out : N), (length (k_mail c) < fuel)%nat -> let '(_, c', out', _) := drain fuel high c out in exists taken : list N, k_mail c = taken ++ k_mail c' /\ out' = out + sum taken.
 
 Print Assumptions C18_throttle_spec.
 Print Assumptions C18_throttles_above_high.
@@ -54,4 +112,14 @@ Print Assumptions C18_resumes_at_low.
 Print Assumptions C18_write_interest.
 Print Assumptions C18_mailbox_fifo.
 Print Assumptions C18_trace_conserves.
+Print Assumptions C18_wake_invariant.
+Print Assumptions C18_tail_leaves_wakeups.
+Print Assumptions C18_next_poll_reports.
+Print Assumptions C18_throttled_has_data.
+Print Assumptions C18_resume_rearms.
+Print Assumptions C18_event_bounded.
+Print Assumptions C18_out_bounded.
+Print Assumptions C18_backlog_bounded.
+Print Assumptions C18_drain_in_order.
 Print Assumptions C18_example.
+Print Assumptions C18_example_wake.
